@@ -4,6 +4,7 @@ import (
 	"errors"
 	"fmt"
 	"io"
+	"maps"
 	"os"
 	"sync"
 
@@ -35,9 +36,12 @@ var (
 
 func New(opts ...WriterOption) *Writer {
 	ensureSerializersInitialized()
+	// Every writer gets its own copy of the default options
+	options := *defaultOptions
+	options.formatOptions = maps.Clone(defaultOptions.formatOptions)
 	w := &Writer{
 		Storage: fstore.NewFileSystem(),
-		Options: defaultOptions,
+		Options: &options,
 	}
 
 	for _, opt := range opts {
